@@ -6,7 +6,7 @@ PROP = dict(
         "Shangrla.Raire.leaf_leOPT", "Shangrla.Raire.exit_all_leOPT", "Shangrla.Raire.compute_spec",
         "Shangrla.Raire.mainLoop_spec",
     ],
-    groups={"raire": (3000, 40000)},
+    groups={"raire": (3000, 120000)},
     design_ref="DESIGN.md section 5, C15; Appendix F (O1-O3)",
     assumptions=[
         "agap = 0; fuelled model with termination proved (Shangrla.C04.raire_terminates); candidates duplicate-free, at least two; "
